@@ -24,7 +24,7 @@ func init() {
 }
 
 var c14Parents = []string{"projects/p/instances/i1", "projects/p/instances/i2", "projects/p/instances/i10"} // i1 is a string prefix of i10
-var c14IDs = []string{"t", "t2", "u", "t.v2"}                                                               // "t.v2": the id of another table plus a dot and a suffix (file names on disk are derived from ids)
+var c14IDs = []string{"t", "t2", "u", "t.v2", "t.deleted", "t.table.proto"}                                                               // "t.v2": the id of another table plus a dot and a suffix (file names on disk are derived from ids)
 var c14Prefixes = []string{"a", "a\x00", "ab", "a\xff", "\xff", "zz", "b", "\x00", "a\x00\x00"}
 var c14Fams = []string{"f1", "f2", "g"}
 
@@ -59,7 +59,7 @@ func makeC14GenMix(r *Run, mix int) func(d *draws, m *btModel, i int) btOp {
 			return names[d.n(len(names))]
 		}
 		d.n(1)
-		return c14Parents[d.n(3)] + "/tables/" + c14IDs[d.n(4)]
+		return c14Parents[d.n(3)] + "/tables/" + c14IDs[d.n(len(c14IDs))]
 	}
 	return func(d *draws, m *btModel, i int) btOp {
 		kind := d.w(weights...)
@@ -76,7 +76,7 @@ func makeC14GenMix(r *Run, mix int) func(d *draws, m *btModel, i int) btOp {
 					fams[c14Fams[k]] = g
 				}
 			}
-			p, id := c14Parents[d.w(3, 1, 2)], c14IDs[d.w(3, 2, 1, 1)]
+			p, id := c14Parents[d.w(3, 1, 2)], c14IDs[d.w(6, 4, 2, 2, 1, 1)]
 			if deleted[p+"/tables/"+id] {
 				r.Probe("c14.recreate_table")
 			}
